@@ -757,7 +757,7 @@ func closeRetIf(t, closeRet time.Duration) time.Duration {
 
 func TestVerif_C14_ipfsdht(t *testing.T) {
 	vh.Run(t, vh.Spec{Prop: "C14", Unit: "ipfsdht", Quick: 60, Thorough: 2500, CostMs: 90,
-		Rule: "PRNG IpfsDHT scenarios (mode client/server/auto/auto-server x providers/values disabled x auto-refresh x fix-low-peers loop; 6-35 simulated peers, 40% silent/failing/dead; 1-5 public operations, 0-2 inbound streams with 1-4 requests, 0-7 bus events; both stores GC-ing every 0.2-1.1 vs over journaling datastores); reference run counts the boundary events (wire log, dials, datastore accesses, emissions, inbound requests) and closes after everything finished; identically seeded re-runs Close immediately after construction, at 2 events on a background loop's stack and at 2 PRNG indices (thorough: every index on small scenarios, <= 48); non-trivial = Close started while an operation was in flight or on a background loop's boundary event; distinct by (configuration, event kind at Close)",
+		Rule:    "PRNG IpfsDHT scenarios (mode client/server/auto/auto-server x providers/values disabled x auto-refresh x fix-low-peers loop; 6-35 simulated peers, 40% silent/failing/dead; 1-5 public operations, 0-2 inbound streams with 1-4 requests, 0-7 bus events; both stores GC-ing every 0.2-1.1 vs over journaling datastores); reference run counts the boundary events (wire log, dials, datastore accesses, emissions, inbound requests) and closes after everything finished; identically seeded re-runs Close immediately after construction, at 2 events on a background loop's stack and at 2 PRNG indices (thorough: every index on small scenarios, <= 48); non-trivial = Close started while an operation was in flight or on a background loop's boundary event; distinct by (configuration, event kind at Close)",
 		Clauses: []string{"baseline-clean", "close-returns-in-bound", "no-loop-after-close", "close-again-returns", "op-returns", "late-op-returns", "op-channel-closed", "no-goroutine-after-2min", "no-subscription-left", "provider-store-fenced", "gc-stopped"}},
 		func(c *vh.Case) {
 			sc := vC14GenScn(c)
@@ -795,7 +795,7 @@ func TestVerif_C14_ipfsdht(t *testing.T) {
 
 func TestVerif_C14_ipfsdht_ctor(t *testing.T) {
 	vh.Run(t, vh.Spec{Prop: "C14", Unit: "ipfsdht_ctor", Quick: 120, Thorough: 3000, CostMs: 12,
-		Rule: "dht.New failing at an enumerated point (option error, Validate rejection, failing provider-manager option, invalid mode after both stores started their GC, failing EventBus Subscribe after the stream handlers were set) x mode x subsystems x auto-refresh x fix-low; oracle: error returned, instance-owned census and live bus subscriptions equal the (empty) baseline after the error; every case non-trivial when the failure point lies after the first goroutine start; distinct by (failure point, mode, subsystems)",
+		Rule:    "dht.New failing at an enumerated point (option error, Validate rejection, failing provider-manager option, invalid mode after both stores started their GC, failing EventBus Subscribe after the stream handlers were set) x mode x subsystems x auto-refresh x fix-low; oracle: error returned, instance-owned census and live bus subscriptions equal the (empty) baseline after the error; every case non-trivial when the failure point lies after the first goroutine start; distinct by (failure point, mode, subsystems)",
 		Clauses: []string{"ctor-returns-error", "ctor-fail-no-goroutine", "ctor-fail-no-subscription"}},
 		func(c *vh.Case) {
 			r := c.R
